@@ -15,7 +15,8 @@ class Undecided(Exception):
 
 class Part:
     """one function body to extract"""
-    def __init__(self, header, scopes, anchor, nth=0, expect_anchors=None, xform=None, tag=None, init_list=False, member_init=None):
+    def __init__(self, header, scopes, anchor, nth=0, expect_anchors=None, xform=None, tag=None, init_list=False, member_init=None, optional=False):
+        self.optional = optional      # the function may be absent from the tree (e.g. a destructor of a scope guard a change removed): its body is then empty
         self.member_init = member_init   # not a function: the default member initialiser `T name{...};` of the class in `scopes` (MEMBERINIT rule)
         self.init_list = init_list    # constructor: the member initialiser list `: m(e), n(f)` becomes `m = e; n = f;` in front of the body (INITLIST rule)
         self.header, self.scopes, self.anchor, self.nth = header, scopes, anchor, nth
@@ -141,7 +142,12 @@ def extract_member_init(part, F, default_xform):
 def extract_part(part, F, default_xform):
     if part.member_init: return extract_member_init(part, F, default_xform)
     tk = header_tokens(part.header)
-    o, c, n_anchor = cxx2c.locate(tk, part.scopes, part.anchor, part.nth)
+    try:
+        o, c, n_anchor = cxx2c.locate(tk, part.scopes, part.anchor, part.nth)
+    except Drift:
+        if not getattr(part, 'optional', False): raise
+        F.hit('OPTIONAL-ABSENT')
+        return [], dict(header='include/boost/msm/' + part.header, first_line=0, last_line=0, body_tokens=0, body_sha256=cxx2c.sha([]), verbatim_ratio=1.0, absent=True)
     if part.expect_anchors is not None and n_anchor != part.expect_anchors:
         raise Drift("anchor '%s' occurs %d times in scope, expected %d" % (part.anchor, n_anchor, part.expect_anchors))
     body = tk[o + 1:c]
@@ -283,12 +289,13 @@ def build_unit(unit, workdir):
             if re.fullmatch(r'@\d+', s):
                 k = int(s[1:])
                 btk = bodies[k]
+                if k == 0 and unit.loops: btk = insert_loop_contracts(btk, unit.loops)     # loop contracts of a composed unit belong to part 0
                 all_tk += btk
                 body_txt += '\n' + cxx2c.emit(btk, infos[k]['header']) + '\n'
             else:
                 body_txt += s
-        if unit.loops:
-            raise Drift("loop contracts with compose: give them per part via xform")
+        if unit.loops and '@0' not in unit.compose:
+            raise Drift("loop contracts with compose need part @0 in the body")
     else:
         btk = insert_loop_contracts(bodies[0], unit.loops)
         all_tk = btk
